@@ -11,6 +11,7 @@ import (
 	"io"
 	"math/big"
 	"net/http"
+	"runtime"
 	"sort"
 	"strconv"
 	"strings"
@@ -26,6 +27,14 @@ var (
 	errValidator = errors.New("verif: scripted validator rejection")
 	errGetBody   = errors.New("verif: scripted GetBody error")
 )
+
+// verdictErr is a validator rejection that describes itself as temporary and/or a timeout (what a net.Error does)
+type verdictErr struct{ temp, timeout bool }
+
+func (e *verdictErr) Error() string        { return "verif: scripted validator rejection (self-described)" }
+func (e *verdictErr) Is(target error) bool { return target == errValidator }
+func (e *verdictErr) Temporary() bool      { return e.temp }
+func (e *verdictErr) Timeout() bool        { return e.timeout }
 
 // ---------------------------------------------------------------- floats as exact rationals
 
@@ -299,7 +308,9 @@ func runConnInner(args []string) string {
 			if cur.sub == '1' {
 				cancel()
 			}
-			return &http.Response{StatusCode: 200, Header: http.Header{"X-Verif-Reject": {"1"}}, Body: io.NopCloser(strings.NewReader("")), Request: r}, nil
+			// the verdict's flavour (plain, Temporary, Timeout, both, wrapped) follows from the attempt number: every
+			// validator error is final whatever it says about itself
+			return &http.Response{StatusCode: 200, Header: http.Header{"X-Verif-Reject": {fmt.Sprint(i % 5)}}, Body: io.NopCloser(strings.NewReader("")), Request: r}, nil
 		}
 		if cur.cancel == "b" {
 			cancel()
@@ -319,8 +330,18 @@ func runConnInner(args []string) string {
 	client := sse.Client{
 		HTTPClient: &http.Client{Transport: rt},
 		ResponseValidator: func(r *http.Response) error {
-			if r.Header.Get("X-Verif-Reject") != "" {
+			switch r.Header.Get("X-Verif-Reject") {
+			case "":
+			case "0":
 				return errValidator
+			case "1":
+				return &verdictErr{temp: true}
+			case "2":
+				return &verdictErr{timeout: true}
+			case "3":
+				return &verdictErr{temp: true, timeout: true}
+			default:
+				return fmt.Errorf("verif: wrapped verdict: %w", &verdictErr{temp: true})
 			}
 			mu.Lock()
 			defer mu.Unlock()
@@ -678,7 +699,7 @@ func runRegC(args []string) string {
 				return nil, ctx.Err()
 			}
 			served = true
-			return &http.Response{StatusCode: 200, Header: http.Header{}, Body: io.NopCloser(&scriptedReader{chunks: splitEvery([]byte(sb.String()), 37), endErr: io.EOF}), Request: r}, nil
+			return &http.Response{StatusCode: 200, Header: http.Header{}, Body: io.NopCloser(pacedReader{&scriptedReader{chunks: splitEvery([]byte(sb.String()), 37), endErr: io.EOF}}), Request: r}, nil
 		})},
 		ResponseValidator: sse.NoopValidator,
 		Backoff:           sse.Backoff{InitialInterval: 1, Jitter: -1, Multiplier: 1},
@@ -708,9 +729,15 @@ func runRegC(args []string) string {
 			c.SubscribeEvent(types[filters[i]], cb)
 		}
 	}
+	// the clock: a subscribe-to-all callback registered before Connect counts the events dispatched so far.
+	// Subscribing and removing take the write lock, a dispatch holds the read lock throughout, so a callback whose
+	// Subscribe returned when the clock read k and whose remover was called after it read k2 must have seen every
+	// event of its type with index in [k, k2).
+	var clock atomic.Int64
+	c.SubscribeToAll(func(e sse.Event) { clock.Store(int64(atoi(e.Data)) + 1) })
 	var wg sync.WaitGroup
 	stop := make(chan struct{})
-	for g := 0; g < nChurn; g++ {
+	for g := 0; g < 2*nChurn; g++ {
 		wg.Add(1)
 		go func(g int) {
 			defer wg.Done()
@@ -722,8 +749,11 @@ func runRegC(args []string) string {
 				}
 				var removed atomic.Bool
 				last := -1
+				var got []int
 				var lmu sync.Mutex
-				f := (g + round) % (len(types) + 1)
+				// goroutines 2j and 2j+1 work on the same filter for 64 rounds: the even one flaps (subscribe, remove at once, so
+				// the last callback of a type keeps disappearing), the odd one lingers over an event or two and checks its window
+				f := (g/2 + round/64) % (len(types) + 1)
 				cb := func(e sse.Event) {
 					if removed.Load() {
 						fail("callback invoked after its remover returned")
@@ -735,6 +765,7 @@ func runRegC(args []string) string {
 						fail("churn callback saw events out of order or twice")
 					}
 					last = n
+					got = append(got, n)
 					if f < len(types) && e.Type != types[f] {
 						fail("churn callback got an event of another type")
 					}
@@ -745,12 +776,37 @@ func runRegC(args []string) string {
 				} else {
 					rm = c.SubscribeEvent(types[f], cb)
 				}
-				if round%3 == 1 {
-					time.Sleep(time.Microsecond)
+				k := clock.Load()
+				if g%2 == 1 {
+					switch round % 4 {
+					case 1:
+						time.Sleep(time.Microsecond)
+					case 2:
+						runtime.Gosched()
+					default:
+						for spin := 0; spin < 3000 && clock.Load() < k+2; spin++ {
+						}
+					}
 				}
+				k2 := clock.Load()
 				rm()
 				removed.Store(true)
 				rm() // repeated remover
+				lmu.Lock()
+				gi := 0
+				for n := int(k); n < int(k2) && n < len(evTypes); n++ {
+					if f < len(types) && evTypes[n] != types[f] {
+						continue
+					}
+					for gi < len(got) && got[gi] < n {
+						gi++
+					}
+					if gi >= len(got) || got[gi] != n {
+						fail(fmt.Sprintf("a callback subscribed before event %d and removed after event %d never saw event %d of its type", k, k2-1, n))
+						break
+					}
+				}
+				lmu.Unlock()
 			}
 		}(g)
 	}
@@ -775,6 +831,15 @@ func runRegC(args []string) string {
 		return "bad:" + strings.ReplaceAll(b.(string), " ", "_")
 	}
 	return "ok"
+}
+
+// pacedReader spends a few microseconds per Read, so that the churn goroutines get to work while the stream lasts
+type pacedReader struct{ r io.Reader }
+
+func (p pacedReader) Read(b []byte) (int, error) {
+	for t0 := time.Now(); time.Since(t0) < 40*time.Microsecond; {
+	}
+	return p.r.Read(b)
 }
 
 func splitEvery(b []byte, n int) [][]byte {
